@@ -275,12 +275,12 @@ func (g *genState) writeOp() {
 	case x < wDel:
 		id := g.pickID()
 		g.emit("delete %d %s", tab, hx.Hex(id))
-		g.sh.delete(tab, 0, id, g.open)
+		g.sh.delete(tab, false, 0, id, g.open)
 	case x < wCad:
 		id := g.pickID()
 		gd := g.guardFor(tab, id)
 		g.emit("cad %d %d %s", tab, gd, hx.Hex(id))
-		g.sh.delete(tab, gd, id, g.open)
+		g.sh.delete(tab, true, gd, id, g.open)
 	case x < wAll:
 		if g.open {
 			g.emit("deleteall %d", tab)
@@ -446,6 +446,32 @@ func (g *genState) genCase(id string) {
 		g.sh.begin(g.locked)
 		nops := 1 + r.Intn(8)
 		for i := 0; i < nops; i++ {
+			// Next with the open write transaction right after it deleted/changed something
+			// (only committed changes may be delivered)
+			if len(g.iters) > 0 && r.Chance(g.weight(4, "C07 C08 C02", 4)) {
+				for id := 0; id < g.nextIter; id++ {
+					tab, ok := g.iters[id]
+					if !ok || g.fresh[id] || !g.locked[tab] {
+						continue
+					}
+					if r.Chance(60) {
+						did := g.pickID()
+						g.emit("delete %d %s", tab, hx.Hex(did))
+						g.sh.delete(tab, false, 0, did, g.open)
+					} else {
+						o := g.newObj()
+						g.emit("insert %d %s", tab, g.objArgs(o))
+						g.sh.modify(tab, "insert", 0, o, g.open)
+					}
+					take := "all"
+					if r.Chance(30) {
+						take = "1"
+					}
+					g.emit("next %d txn %s", id, take)
+					g.itSnap[id] = len(g.snaps)
+					break
+				}
+			}
 			switch x := r.Intn(100); {
 			case x < 60:
 				g.writeOp()
